@@ -6,6 +6,7 @@ __arguments__ / __argument_tags__ (state-based, implementation-agnostic oracle).
 """
 from __future__ import annotations
 
+import os
 import inspect
 import itertools
 import sys
@@ -40,7 +41,7 @@ ASSUMPTIONS = [
 MINIMUMS = {
     'quick': {'evaluations': 1500, 'ops': 15000, 'ops_suspended': 1500, 'tag_ops_by_index': 500,
               'value_changes_checked': 6000, 'thread_runs': 20, 'thread_entries': 20000,
-              'locations_checked': 5000},
+              'locations_checked': 5000, 'helper_locations_checked': 300},
     'thorough': {'evaluations': 1000},
 }
 
@@ -59,6 +60,7 @@ def plan(tier):
   n = 140 if tier == 'quick' else 15000
   shards = [{'name': f's{i}', 'kind': 'main', 'n': n, 'start': i * n} for i in range(15)]
   shards += [{'name': 'threads', 'kind': 'threads', 'n': 50 if tier == 'quick' else 1500}]
+  shards += [{'name': 'helpers', 'kind': 'helpers', 'n': 150 if tier == 'quick' else 5000}]
   return shards
 
 
@@ -426,9 +428,55 @@ def run_threads(spec, acc):
     sys.setswitchinterval(old)
 
 
+def run_helpers(spec, acc):
+  """Edits made through helper files: a file registered with history.add_exclude_location is
+  'internal' from then on - also when edits through it were already recorded before the
+  registration - and the edit is attributed to the helper's caller."""
+  me = run_helpers.__code__.co_filename
+  for i, rng in acc.cases(spec):
+    stem = f'vfhelpers_{os.getpid()}_{i}'
+    helper_file = f'/virtual/{stem}/helper_{rng.choice("abc")}.py'
+    ns = {}
+    src = ('def set_named(cfg, name, value):\n  setattr(cfg, name, value)\n'
+           'def set_index(cfg, i, value):\n  cfg[i] = value\n'
+           'def add(cfg, name, tag):\n  import fiddle as fdl\n  fdl.add_tag(cfg, name, tag)\n')
+    exec(compile(src, helper_file, 'exec'), ns)   # pylint: disable=exec-used
+    cfg = fdl.Config(kinds.target3, 1)
+    register_first = rng.random() < 0.3
+    if register_first:
+      history.add_exclude_location(helper_file[len('/virtual/'):])
+    calls = []
+    for step in range(rng.randint(2, 5)):
+      if step == 1 and not register_first:
+        history.add_exclude_location(helper_file[len('/virtual/'):])
+      registered = register_first or step >= 1
+      which = rng.choice(['named', 'index'])
+      v = Sentinel(1000 + step)
+      if which == 'named':
+        ns['set_named'](cfg, rng.choice(['b', 'k']), v)
+      else:
+        ns['set_index'](cfg, rng.choice([0, 1]), v)
+      entries = [e for lst in cfg.__argument_history__.values() for e in lst if e.new_value is v]
+      acc.case(('helper', which, registered, register_first, step))
+      if len(entries) != 1:
+        acc.violation('helper-edit-entry-count', f'{len(entries)} entries for one edit', {'step': step})
+        continue
+      fn = entries[0].location.filename
+      acc.obs('helper_locations_checked')
+      want = me if registered else helper_file
+      if fn != want:
+        acc.violation('edit-through-excluded-helper-attributed-to-helper' if registered
+                      else 'edit-attributed-to-wrong-location:helper-not-yet-excluded',
+                      f'location {fn}:{entries[0].location.line_number}, expected a frame in {want}',
+                      {'registered_before_first_use': register_first, 'step': step})
+
+
 def run_shard(spec, seed, acc):
   if spec['kind'] == 'threads':
     run_threads(spec, acc)
+    return
+  if spec['kind'] == 'helpers':
+    run_helpers(spec, acc)
     return
   for _, rng in acc.cases(spec):
     run_history(rng, acc)
